@@ -2,6 +2,7 @@ import Syzgy.Model.Driver
 import Syzgy.Model.QueryDriver
 import Syzgy.Model.SearchDriver
 import Syzgy.Model.LshDriver
+import Syzgy.Model.Distance
 
 open Syzgy
 
@@ -18,7 +19,10 @@ def step (d : DState) (line : String) : DState × String :=
       | none =>
         match Syzgy.Lsh.lshStep toks with
         | some out => (d, out)
-        | none => (d, "bad-op")
+        | none =>
+          match distStep toks with
+          | some out => (d, out)
+          | none => (d, "bad-op")
 
 partial def loop (hin hout : IO.FS.Stream) (d : DState) : IO Unit := do
   let line ← hin.getLine
